@@ -301,6 +301,66 @@ func checkC14(res *Result) {
 		}
 		res.check(sawElse, "C14-R2", "JSONResolver.Resolve", relPos(S.Fset, fd.Pos()), "the chain ends in an else for unknown types", "no final else")
 		checkEntries("JSONResolver.Resolve", entries, fd.Pos())
+		// the tail: a single "type" string is handled directly; for an array each
+		// string is tried in order and ONLY ErrUnhandledType lets the next one be tried
+		okSingle, okArray := false, false
+		for _, st := range fd.Body.List {
+			ifs, ok := st.(*ast.IfStmt)
+			if !ok || ifs.Init == nil {
+				continue
+			}
+			as, ok := ifs.Init.(*ast.AssignStmt)
+			if !ok || len(as.Rhs) != 1 {
+				continue
+			}
+			ta, ok := as.Rhs[0].(*ast.TypeAssertExpr)
+			if !ok || !isIdentNamed(ta.X, "typeValue") {
+				continue
+			}
+			links := flattenIfChain(ifs)
+			if len(links) != 3 {
+				res.undecided("C14-R2", "JSONResolver.Resolve", relPos(S.Fset, ifs.Pos()), "the 'type' member is handled as string / array / other", fmt.Sprintf("%d branches", len(links)))
+				continue
+			}
+			// string branch: return handleFn(typeStr)
+			if len(links[0].body.List) == 1 {
+				if r, ok := links[0].body.List[0].(*ast.ReturnStmt); ok && len(r.Results) == 1 {
+					if c, ok := r.Results[0].(*ast.CallExpr); ok && isIdentNamed(c.Fun, "handleFn") {
+						okSingle = true
+					}
+				}
+			}
+			// array branch: for range { if s, ok := x.(string); ok { if err := handleFn(s); err == nil {return nil} else if err == ErrUnhandledType {continue} else {return err} } }; return ErrUnhandledType
+			if len(links[1].body.List) == 2 && returnsIdent(links[1].body.List[1], "ErrUnhandledType") {
+				if rs, ok := links[1].body.List[0].(*ast.RangeStmt); ok && len(rs.Body.List) == 1 {
+					if strIf, ok := rs.Body.List[0].(*ast.IfStmt); ok && len(strIf.Body.List) == 1 && strIf.Else == nil {
+						if inner, ok := strIf.Body.List[0].(*ast.IfStmt); ok {
+							il := flattenIfChain(inner)
+							condIs := func(e ast.Expr, rhs string) bool {
+								be, ok := e.(*ast.BinaryExpr)
+								return ok && be.Op == token.EQL && isIdentNamed(be.X, "err") && isIdentNamed(be.Y, rhs)
+							}
+							isContinue := func(b *ast.BlockStmt) bool {
+								if len(b.List) != 1 {
+									return false
+								}
+								br, ok := b.List[0].(*ast.BranchStmt)
+								return ok && br.Tok == token.CONTINUE
+							}
+							if len(il) == 3 && il[2].cond == nil &&
+								condIs(il[0].cond, "nil") && len(il[0].body.List) == 1 && returnsIdent(il[0].body.List[0], "nil") &&
+								condIs(il[1].cond, "ErrUnhandledType") && isContinue(il[1].body) &&
+								len(il[2].body.List) == 1 && returnsIdent(il[2].body.List[0], "err") {
+								okArray = true
+							}
+						}
+					}
+				}
+			}
+			res.check(len(links[2].body.List) == 1 && returnsIdent(links[2].body.List[0], "ErrUnhandledType"), "C14-R2", "JSONResolver.Resolve", relPos(S.Fset, links[2].pos), "a 'type' that is neither string nor array yields ErrUnhandledType", "different")
+		}
+		res.check(okSingle, "C14-R2", "JSONResolver.Resolve", relPos(S.Fset, fd.Pos()), "a single 'type' string is dispatched directly and its result returned", "tail of Resolve has another form")
+		res.check(okArray, "C14-R2", "JSONResolver.Resolve", relPos(S.Fset, fd.Pos()), "for a 'type' array each string is tried in order; success returns, only ErrUnhandledType moves on, any other error (incl. ErrNoCallbackMatch and a callback's own error) is returned unchanged; none known ⇒ ErrUnhandledType", "the loop over the type array has another form (e.g. continues on more than ErrUnhandledType)")
 		res.Count("JSONResolver branches", len(entries), 60)
 	}
 
